@@ -221,6 +221,7 @@ class StepOracle(Base):
 
     def on_spsq(self, ctx, kw, res):
         self.k += 1
+        self.last_answered = res is not None
         if res is not None:
             self.last_ok = (float(kw["dt"]), np.array(res[0], copy=True))
         if ctx is not None and "psi" in ctx["inputs"]:
@@ -263,6 +264,12 @@ class StepOracle(Base):
         self.last_ok = None
 
     def on_update_end(self, ctx, res, exc):
+        if res is None and isinstance(exc, RuntimeError) and "creening" not in str(exc) and "converge" in str(exc) and ctx["spsq_calls"]:
+            # the update was refused: then the last attempt must have been refused (a solution that was found is never thrown away)
+            self.count("refused_update_checks")
+            if getattr(self, "last_answered", False):
+                self.viol("update_refused_although_solved", "update_refused_although_solution_found",
+                          {"step": ctx["step"], "attempt_dts": ctx["attempt_dts"][-4:], "refusals": ctx["refusals"], "error": str(exc)[:120]})
         # the step reported by update (dt, psi) must be the one that was answered by the accepted solve
         if res is None or self.last_ok is None:
             return
@@ -679,6 +686,11 @@ class AdaptiveMonitor(Base):
                         break
                 if o.adaptive and tail < o.max_solve_retries + 1:
                     self.viol("gave_up_early", "gave_up_before_retry_budget", {**where, "consecutive_refusals": tail, "max_solve_retries": o.max_solve_retries})
+            elif calls and not calls[-1][1] and isinstance(exc, RuntimeError) and "creening" not in str(exc) and "converge" in str(exc):
+                # the last attempt WAS answered: the retries were not exhausted, there was nothing to give up on
+                self.count("exhaustions_seen")
+                self.viol("gave_up_although_answered", "gave_up_although_last_attempt_answered",
+                          {**where, "attempts": [c[0] for c in calls[-4:]], "refused": [c[1] for c in calls[-4:]], "max_solve_retries": o.max_solve_retries, "error": str(exc)[:120]})
             return
         if calls and calls[-1][1]:
             self.viol("continued_after_refusal", "continued_after_refusal", {**where})
